@@ -57,6 +57,7 @@ type obs struct {
 	Debug  string
 	held   *val.Val // the returned value itself: must still render the same when the history is over
 	Law    string   // a violated value-level law (numLaw), "" if none
+	Panic  string   // text of a panic that escaped the library (not compared, only reported)
 }
 
 func (o obs) String() string {
@@ -118,6 +119,15 @@ var c13Extra = []Prog{
 	{"len([1: 1, 1: 2, 2: 3]) + get([1: 1, 1: 2], 1, 0)", "none", false, false},
 	{"[m == m, mi == mi, mo == mo, [m, m] == [m, m]]", "map", false, false},
 	{"[isset(mo, \"u\"), isset(mo, \"zz\"), get(mo, \"v\", o).id]", "struct", false, false},
+	// EMPTY containers of the environment (map2 / struct2: mi is an empty map, ll[1] and
+	// lo[1].tags are empty lists), rendered once, twice, nested
+	{"string(mi)", "struct2", false, false},
+	{"string([mi, mi])", "map2", false, false},
+	{"string({a: mi, b: [mi], c: ll[1]})", "struct2", false, false},
+	{"[string(mi), string(ll), string(mi)]", "map2", false, false},
+	{"print([mi, mi])", "struct2", false, false},
+	{"[mi, mi]", "map2", false, false},
+	{"string(lo[1].tags) + string(ll[1]) + string(lo[1].tags)", "struct2", false, false},
 	// one list value feeding two set operations: neither result may see the other's elements
 	// (o.tags, ll, lo have no duplicates and lengths that are not powers of two in some environments)
 	{"[union(o.tags, [\"q1\"]), union(o.tags, [\"q2\"])]", "map", false, false},
@@ -259,6 +269,7 @@ func (x *evalCtx) observe(stdoutFail bool, f func(o *obs)) (o obs) {
 					panic(r)
 				}
 				o.Class = "panic"
+				o.Panic = clip(fmt.Sprint(r))
 			}
 		}()
 		f(&o)
@@ -429,9 +440,15 @@ func runHist13(h *Hist13, x *evalCtx) hist13Result {
 	var res hist13Result
 	nameClass("") // computed outside the simulated run
 	keys := h.keys()
-	table := func() map[pkey]obs {
+	// the second pristine table is computed in REVERSE order: an evaluation whose outcome
+	// depends on what the process evaluated just before it shows up as t1 != t2
+	table := func(rev bool) map[pkey]obs {
 		t := map[pkey]obs{}
-		for _, k := range keys {
+		for j := range keys {
+			k := keys[j]
+			if rev {
+				k = keys[len(keys)-1-j]
+			}
 			if k.kind == "" {
 				continue
 			}
@@ -441,7 +458,7 @@ func runHist13(h *Hist13, x *evalCtx) hist13Result {
 		}
 		return t
 	}
-	t1 := table()
+	t1 := table(false)
 
 	got := make([]obs, len(h.Ops))
 	hostChanged := make([]string, len(h.Ops))
@@ -803,7 +820,7 @@ func runHist13(h *Hist13, x *evalCtx) hist13Result {
 		}
 		harnessFatal("c13: panic escaped the history body: %v", res.Sim.TaskPanics[0])
 	}
-	t2 := table()
+	t2 := table(true)
 
 	for i, k := range keys {
 		if k.kind == "" {
